@@ -218,40 +218,55 @@ def _writer_paths(fn):
     return run(fn.body, paths)
 
 
-def _reader_chain(fn):
-    """the if/elif chain of json_to_explainable_object: list of (test, body)"""
-    for s in fn.body:
-        if isinstance(s, ast.If) and len(s.orelse) == 1 and isinstance(s.orelse[0], ast.If):
-            chain = []
-            node = s
-            while True:
-                chain.append((node.test, node.body))
-                if len(node.orelse) == 1 and isinstance(node.orelse[0], ast.If):
-                    node = node.orelse[0]
-                else:
-                    if node.orelse:
-                        chain.append((None, node.orelse))
-                    break
-            return chain
-    return None
+class _KeyErr(Exception):
+    pass
 
 
 def _eval_reader_test(t, p):
-    if t is None:
-        return True
+    """concrete truth value of a reader test for a writer path p (which keys it emitted, which of them are None);
+    evaluation order and short-circuiting as in Python; subscripting a key that was not emitted raises _KeyErr"""
     if isinstance(t, ast.BoolOp) and isinstance(t.op, ast.And):
-        return all(_eval_reader_test(v, p) for v in t.values)
+        for v in t.values:
+            if not _eval_reader_test(v, p):
+                return False
+        return True
     if isinstance(t, ast.BoolOp) and isinstance(t.op, ast.Or):
-        return any(_eval_reader_test(v, p) for v in t.values)
+        for v in t.values:
+            if _eval_reader_test(v, p):
+                return True
+        return False
+    if isinstance(t, ast.UnaryOp) and isinstance(t.op, ast.Not):
+        return not _eval_reader_test(t.operand, p)
     if isinstance(t, ast.Compare) and len(t.ops) == 1:
-        if isinstance(t.ops[0], ast.In) and isinstance(t.left, ast.Constant):
-            return t.left.value in p["keys"]
-        if isinstance(t.ops[0], ast.Is) and isinstance(t.left, ast.Subscript) and isinstance(t.left.slice, ast.Constant):
+        if isinstance(t.ops[0], (ast.In, ast.NotIn)) and isinstance(t.left, ast.Constant):
+            r = t.left.value in p["keys"]
+            return r if isinstance(t.ops[0], ast.In) else not r
+        if isinstance(t.ops[0], (ast.Is, ast.IsNot)) and isinstance(t.left, ast.Subscript) \
+                and isinstance(t.left.slice, ast.Constant) and isinstance(t.comparators[0], ast.Constant) \
+                and t.comparators[0].value is None:
             k = t.left.slice.value
             if k not in p["keys"]:
-                return "KeyError:" + k
-            return k in p["none"]
+                raise _KeyErr(k)
+            r = k in p["none"]
+            return r if isinstance(t.ops[0], ast.Is) else not r
     raise AnalysisError(f"json reader test not understood: {norm(t)[:80]}")
+
+
+def _select_reader_path(paths, p):
+    """the path of the reader that a dict with p's keys takes: (path, None) or (None, problem text)"""
+    for path in paths:
+        taken = True
+        for test, pol in path.conds:
+            try:
+                r = _eval_reader_test(test, p)
+            except _KeyErr as e:
+                return None, f"the reader's test `{norm(test)[:60]}` subscripts ['{e.args[0]}'], which this path did not emit"
+            if r != pol:
+                taken = False
+                break
+        if taken:
+            return path, None
+    return None, "no path of json_to_explainable_object matches"
 
 
 EXPECTED_READER_CTOR = {"ExplainableObject": "SourceObject", "EmptyExplainableObject": "EmptyExplainableObject",
@@ -265,9 +280,10 @@ def r_json_keys(E):
     res = RuleResult("R-JSON-KEYS", "for every path through a to_json writer of an explainable value, the reader's "
                                     "if/elif chain selects a branch and that branch only subscripts keys the writer emitted")
     rel, reader = pm.find_function(J2S, "json_to_explainable_object")
-    chain = _reader_chain(reader)
-    if chain is None:
-        raise AnalysisError("json_to_explainable_object: if/elif chain not found")
+    from ..paths import enumerate_paths
+    rpaths = enumerate_paths(reader)
+    if len(rpaths) < 4:
+        raise AnalysisError("json_to_explainable_object: fewer than 4 paths (one per kind of value expected)")
     writers = [("ExplainableObject", EB), ("EmptyExplainableObject", EO), ("ExplainableQuantity", EO),
                ("ExplainableHourlyQuantities", EO)]
     from ..astutil import inline_helpers
@@ -276,34 +292,27 @@ def r_json_keys(E):
         w = inline_helpers(w, lambda name, _c=cls: (pm.find_method(_c, name)[1] if name != "to_json" else None))
         for p in _writer_paths(w):
             res.instances += 1
-            selected = None
-            problem = None
-            for test, body in chain:
-                r = _eval_reader_test(test, p)
-                if isinstance(r, str):
-                    problem = f"the reader's test `{norm(test)[:60]}` subscripts ['{r.split(':')[1]}'], which this path did not emit"
-                    break
-                if r:
-                    selected = (test, body)
-                    break
+            selected, problem = _select_reader_path(rpaths, p)
             where = f"{cls}.to_json [{' & '.join(p['conds']) or 'always'}]"
-            if problem is None and selected is None:
-                problem = "no branch of json_to_explainable_object matches: the value is loaded as None"
+            branch = ""
             if problem is None:
+                taken = [norm(t)[:50] for t, pol in selected.conds if pol]
+                branch = taken[-1] if taken else "else"
                 used = set()
-                for st in selected[1]:
+                for st in selected.stmts:
                     for n in ast.walk(st):
                         if isinstance(n, ast.Subscript) and isinstance(n.value, ast.Name) and n.value.id == "input_dict" \
-                                and isinstance(n.slice, ast.Constant):
+                                and isinstance(n.slice, ast.Constant) and isinstance(n.ctx, ast.Load):
                             used.add(n.slice.value)
                 miss = used - p["keys"]
-                built = {norm(c.func) for st in selected[1] for c in ast.walk(st) if isinstance(c, ast.Call)
-                         and norm(c.func) in EXPECTED_READER_CTOR.values()}
-                if EXPECTED_READER_CTOR[cls] not in built:
+                built = {norm(c.func) for c in selected.calls() if norm(c.func) in EXPECTED_READER_CTOR.values()}
+                if not built:
+                    problem = "no branch of json_to_explainable_object matches: the value is loaded as None"
+                elif EXPECTED_READER_CTOR[cls] not in built:
                     problem = f"the selected reader branch builds {sorted(built)} instead of a " \
                               f"{EXPECTED_READER_CTOR[cls]}: the value comes back as another kind of object"
                 elif miss:
-                    problem = f"the selected reader branch (`{norm(selected[0])[:50] if selected[0] is not None else 'else'}`) " \
+                    problem = f"the selected reader branch (`{branch}`) " \
                               f"subscripts {sorted(miss)}, which this writer path does not emit: KeyError on load"
             if problem:
                 key = f"{cls}.to_json [{' & '.join(c for c in p['conds'] if 'source' not in c and 'calculated' not in c) or 'always'}]"
@@ -312,7 +321,7 @@ def r_json_keys(E):
                                                 rel, reader.lineno, "json_to_explainable_object"))
             elif len(res.samples) < 5:
                 res.samples.append({"writer_path": where, "emits": sorted(p["keys"]),
-                                    "reader_branch": norm(selected[0])[:60] if selected[0] is not None else "else",
+                                    "reader_branch": branch,
                                     "verdict": "branch reads only emitted keys"})
     res.floor = 20
     return res
@@ -413,15 +422,26 @@ def r_json_upg(E):
     rel2, j = pm.find_function(J2S, "json_to_system")
     res.instances += 1
     loop_ok = False
-    for n in ast.walk(j):
-        if isinstance(n, ast.For) and isinstance(n.iter, ast.Call) and norm(n.iter.func) == "range" and len(n.iter.args) == 2 \
-                and isinstance(n.target, ast.Name):
+    from ..astutil import nodes_through_helpers, view_root
+    is_range_loop = lambda n: isinstance(n, ast.For) and isinstance(n.iter, ast.Call) and norm(n.iter.func) == "range" \
+        and len(n.iter.args) == 2 and isinstance(n.target, ast.Name)
+    for n in nodes_through_helpers(j, find_function=pm.function_finder(rel2), want=is_range_loop, depth=2):
+        if is_range_loop(n):
             for a in ast.walk(n):
                 if isinstance(a, ast.Assign) and isinstance(a.value, ast.Call) and isinstance(a.value.func, ast.Subscript) \
                         and norm(a.value.func.value) == "VERSION_UPGRADE_HANDLERS" \
                         and norm(a.value.func.slice) == n.target.id and a.value.args \
                         and norm(a.targets[0]) == norm(a.value.args[0]):
-                    loop_ok = True
+                    hv, call = view_root(n)
+                    if hv is None:
+                        loop_ok = True
+                    else:
+                        # the loop sits in an extracted function: its result must come back into the loader's dict
+                        st = getattr(call, "_parent", None)
+                        rets = [r for r in ast.walk(hv) if isinstance(r, ast.Return)]
+                        if isinstance(st, ast.Assign) and call.args and norm(st.targets[0]) == norm(call.args[0]) \
+                                and rets and all(r.value is not None and norm(r.value) == norm(a.targets[0]) for r in rets):
+                            loop_ok = True
     if not loop_ok:
         res.findings.append(Finding("R-JSON-UPG", "loader loop", "json_to_system no longer applies the handlers for every "
                                     "version between the file's major and the current one", rel2, j.lineno, "json_to_system"))
